@@ -734,11 +734,38 @@ type Atom struct {
 	Cond ssa.Value
 	True bool
 	If   *ssa.If
+	Site *ssa.Call // the call of the virtually inlined helper whose result the condition was resolved through (or nil)
+}
+
+// Bind resolves v, a value of the helper the atom was resolved through, at that call of the helper: a parameter of
+// the helper stands for the argument of this very call, not for the arguments of all its calls.
+func (a Atom) Bind(v ssa.Value) ssa.Value {
+	if a.Site == nil || v == nil {
+		return v
+	}
+	h := InlinedCallee(a.Site)
+	res := v
+	WithoutInlining(func() {
+		for _, o := range append(Origins(v), v) {
+			if p, ok := o.(*ssa.Parameter); ok && p.Parent() == h {
+				for i, q := range h.Params {
+					if q == p && i < len(a.Site.Call.Args) {
+						res = a.Site.Call.Args[i]
+					}
+				}
+			}
+		}
+	})
+	return res
 }
 
 // atomsOf decomposes the outcome `val` of condition cond: "a && b" being true makes a and b true, "a || b" being
 // false makes both false (go/ssa compiles these to a phi over constant and right-hand-side edges).
-func atomsOf(cond ssa.Value, val bool, iff *ssa.If, depth int, known map[siteResult]resultFact) []Atom {
+func atomsOf(cond ssa.Value, val bool, iff *ssa.If, depth int, known map[siteResult]resultFact, via ...*ssa.Call) []Atom {
+	var viaSite *ssa.Call
+	if len(via) > 0 {
+		viaSite = via[0]
+	}
 	v, neg := StripNot(cond)
 	if neg {
 		val = !val
@@ -781,19 +808,19 @@ func atomsOf(cond ssa.Value, val bool, iff *ssa.If, depth int, known map[siteRes
 			}
 			if len(cand) == 1 {
 				if _, isC := cand[0].(*ssa.Const); !isC {
-					return atomsOf(cand[0], val, iff, depth+1, known)
+					return atomsOf(cand[0], val, iff, depth+1, known, site)
 				}
 			}
 		}
 	}
 	ph, ok := v.(*ssa.Phi)
 	if !ok || depth > 4 || (ph.Comment != "&&" && ph.Comment != "||") {
-		return []Atom{{v, val, iff}}
+		return []Atom{{v, val, iff, viaSite}}
 	}
 	and := ph.Comment == "&&"
 	if and != val {
 		// "a && b" false / "a || b" true: nothing is known about the operands individually
-		return []Atom{{v, val, iff}}
+		return []Atom{{v, val, iff, viaSite}}
 	}
 	var out []Atom
 	for i, e := range ph.Edges {
@@ -802,12 +829,12 @@ func atomsOf(cond ssa.Value, val bool, iff *ssa.If, depth int, known map[siteRes
 			if i < len(ph.Block().Preds) {
 				pred := ph.Block().Preds[i]
 				if pi, ok := pred.Instrs[len(pred.Instrs)-1].(*ssa.If); ok {
-					out = append(out, atomsOf(pi.Cond, and, pi, depth+1, known)...)
+					out = append(out, atomsOf(pi.Cond, and, pi, depth+1, known, via...)...)
 				}
 			}
 			continue
 		}
-		out = append(out, atomsOf(e, val, iff, depth+1, known)...)
+		out = append(out, atomsOf(e, val, iff, depth+1, known, via...)...)
 	}
 	return out
 }
